@@ -502,7 +502,11 @@ def check_hash(ctx, R):
         n_ok += ok
     probs = sorted(set(probs))
     unknown_api = sorted({e[1] for kind, val, st in outs for e in st.trace if e[0] == 'file-unknown'})
-    if probs and unknown_api:
+    lazy = any(e[0] in ('recursion-cut', 'generator') for kind, val, st in outs for e in st.trace) or \
+        any(f_.yields() for f_ in ctx.repo.transparent_closure(h) if f_ is not h)
+    if probs and lazy:
+        ctx.undecided('C20.T2', h, 'the file is read through a generator helper: the interleaving of its reads with the digest updates is not modelled by the hash walk')
+    elif probs and unknown_api:
         ctx.undecided('C20.T2', h, 'the file is read through %s, which the hash walk does not model: nothing is concluded about the hashed bytes' % ', '.join('.%s()' % x for x in unknown_api))
     elif probs:
         for p in probs:
